@@ -9,6 +9,7 @@ From Coq Require Import ZArith String List Bool.
 Import ListNotations.
 From CR Require Import Model.DrawParams Model.RenderSel Model.RenderParams Gen.Tables_C19
                        Proofs.DrawParams Proofs.RenderSel Proofs.RenderParams.
+From CR Require Import Model.DrawParamsSrc Gen.Src_drawparams Proofs.SrcDrawParams.
 Open Scope string_scope.
 Open Scope Z_scope.
 
@@ -142,6 +143,37 @@ Example C19_drawn_nonvacuous :
   map snd (drawn (demo_params 2 5) demo_sc) = [11; 22; 32; 33; 34; 52; 60].
 Proof. exact demo_drawn. Qed.
 
+(* ---- (a') the model of the assignment is the source (draw_params.py, BaseParam.__setattr__ / __post_init__) ---- *)
+(* Gen/Src_drawparams.v holds the two method bodies as parsed on every run into the statement language of
+   Model/DrawParamsSrc.v (harness/props/c19_src.py, fail-closed).  Run by that language's interpreter with enough
+   fuel for the nesting depth, the parsed __setattr__ computes [set_attr] for every tree, name and admissible value,
+   and the parsed __post_init__ computes [post_init] for every tree whose root declares the three base fields with
+   scalar values (every generated class does: C19_tables_groups_ok). *)
+Theorem C19_setattr_is_source : forall (f : nat) name v n,
+  admissible name v = true -> (depth n + vdepth v <= f)%nat ->
+  exec f src_setattr name v n = set_attr name v n.
+Proof. exact src_setattr_is_set. Qed.
+
+Theorem C19_post_init_is_source : forall (f : nat) n x1 x2 x3,
+  field n "time_begin" = Some x1 -> field n "time_end" = Some x2 -> field n "antialiased" = Some x3 ->
+  is_group x1 = false -> is_group x2 = false -> is_group x3 = false ->
+  (depth n <= S f)%nat ->
+  pexec f src_setattr false src_post_init n = Some (post_init n).
+Proof. exact src_post_init_is_post_init. Qed.
+
+(* the flag matters: before it is set an assignment stays in the group itself *)
+Theorem C19_not_initialized_stays_local : forall name v n,
+  sexec name v (fun _ => None) false canon_setattr n = Some (if declares n name then set_own name v n else n).
+Proof. exact not_initialized_stays_local. Qed.
+
+(* non-vacuity on the generated tree: fuel 8 suffices for MPDrawParams(), the parsed programs really run *)
+Example C19_source_nonvacuous :
+  (depth mp_default <= 8)%nat /\
+  exec 8 src_setattr "time_begin" (VZ 7) mp_default = Some (set "time_begin" (VZ 7) mp_default) /\
+  pexec 8 src_setattr false src_post_init mp_default = Some (post_init mp_default) /\
+  exec 1 src_setattr "time_begin" (VZ 7) mp_default = None.
+Proof. vm_compute. repeat split; try reflexivity. repeat constructor. Qed.
+
 Print Assumptions C19_set_lookup.
 Print Assumptions C19_set_reaches_every_declaring_group.
 Print Assumptions C19_set_creates_no_field.
@@ -164,3 +196,7 @@ Print Assumptions C19_phantom_with_occupancies.
 Print Assumptions C19_inverted_window_refuted.
 Print Assumptions C19_phantom_later_steps_refuted.
 Print Assumptions C19_drawn_nonvacuous.
+Print Assumptions C19_setattr_is_source.
+Print Assumptions C19_post_init_is_source.
+Print Assumptions C19_not_initialized_stays_local.
+Print Assumptions C19_source_nonvacuous.
